@@ -25,6 +25,9 @@ def gen_atom(rng, ents, allow_old=True):
         return ["in", ent, sorted(rng.sample(VALUES, rng.randint(1, 3)))]
     if k < 0.70:
         return ["attr_eq", ent, rng.choice(ATTRS), rng.choice(ATTR_VALUES)]
+    if k < 0.74:
+        # an atom that raises (ZeroDivisionError) unless the entity has the given value
+        return ["div", ent, rng.choice(VALUES)]
     if k < 0.78:
         # a bare attribute: truthy / falsy without being True / False (0, 1, 2)
         return ["and", ["ne", ent, "zz"], ["attr_val", ent, rng.choice(ATTRS)]]
@@ -58,6 +61,8 @@ def render(e) -> str:
         return f"{e[1]} in {e[2]!r}"
     if op == "attr_eq":
         return f"{e[1]}.{e[2]} == {e[3]}"
+    if op == "div":
+        return f"(10 // ({e[1]} == '{e[2]}'))"
     if op == "attr_val":
         return f"{e[1]}.{e[2]}"
     if op == "old_eq":
@@ -77,7 +82,7 @@ def render(e) -> str:
 def names(e, out=None) -> set:
     out = set() if out is None else out
     op = e[0]
-    if op in ("eq", "ne", "in"):
+    if op in ("eq", "ne", "in", "div"):
         out.add(e[1])
     elif op in ("attr_eq", "attr_val"):
         out.add(f"{e[1]}.{e[2]}")
@@ -92,6 +97,11 @@ def names(e, out=None) -> set:
 
 
 # ---- evaluation -------------------------------------------------------------
+class ExprRaises(Exception):
+    """The expression raises for these values (the trigger must survive that and treat it as not true)."""
+
+
+
 def _val(snap):
     return None if snap is None else snap["s"]
 
@@ -114,6 +124,10 @@ def truth(e, env, changed=None, old=None):
         return _val(env.get(e[1])) in e[2]
     if op == "attr_eq":
         return _attr(env.get(e[1]), e[2]) == e[3]
+    if op == "div":
+        if _val(env.get(e[1])) == e[2]:
+            return 10
+        raise ExprRaises("ZeroDivisionError")
     if op == "attr_val":
         return _attr(env.get(e[1]), e[2])
     if op == "old_eq":
